@@ -116,14 +116,7 @@ def d1(ctx):
     ctx.decide(rule, A.equal(Vc, V1), corr, None, construct="velocity-update",
                detail="V_{n+1} = V + dt[(1-gamma)A + gamma A_{n+1}]",
                bad_detail=f"predict+correct give V_(n+1) = {Vc!r}, but the Newmark formula is {V1!r}")
-    # return orders: predict -> (U, V), correct -> (V, A)
-    rp, rc = pred.returns(), corr.returns()
-    okp = len(rp) == 1 and isinstance(rp[0], ast.Tuple) and [src(e) for e in rp[0].elts] == [pu, pv]
-    okc = len(rc) == 1 and isinstance(rc[0], ast.Tuple) and [src(e) for e in rc[0].elts] == [cv, ca]
-    ctx.decide(rule, okp, pred, rp[0] if rp else None, construct="predict-returns-(U,V)", detail="(U, V)",
-               bad_detail=f"predict returns `{src(rp[0]) if rp else '?'}`")
-    ctx.decide(rule, okc, corr, rc[0] if rc else None, construct="correct-returns-(V,A)", detail="(V, A)",
-               bad_detail=f"correct returns `{src(rc[0]) if rc else '?'}`")
+    # (return order is positional in the symbolic results above: element 0/1 of predict are U_pred/V_pred, of correct V/A)
     # the factory exposes them in the predict / correct slots of DynamicsFunctions
     cls = ctx.need(f"{M}:DynamicsFunctions")
     fields = [st.target.id for st in cls.node.body if isinstance(st, ast.AnnAssign) and isinstance(st.target, ast.Name)]
@@ -278,6 +271,8 @@ def variants(repo):
         Variant("energy gets gamma", P, sub_in_func("create_dynamics_functions", "materialModel.density, dt, newmarkParameters.beta,\n                                          materialModel.compute_energy_density,",
                                                    "materialModel.density, dt, newmarkParameters.gamma,\n                                          materialModel.compute_energy_density,"), "D2/T7-inertia-wiring"),
         Variant("reformat", P, reformat(), None),
+        Variant("rename corrector local", P, sub("        A = UCorrection/(newmarkParameters.beta*dt*dt)\n        V += dt*newmarkParameters.gamma*A\n        return V, A",
+                                               "        ANew = UCorrection/(newmarkParameters.beta*dt*dt)\n        V += dt*newmarkParameters.gamma*ANew\n        return V, ANew"), None),
         Variant("equivalent predictor form", P, sub("0.5*dt*dt*(1.0 - 2.0*newmarkParameters.beta)*A", "dt*dt*(0.5 - newmarkParameters.beta)*A"), None),
         Variant("equivalent inertia factor", P, sub("    KE *= 1 / (newmarkBeta*dt**2)", "    KE *= 1.0 / (dt*dt*newmarkBeta)"), None),
     ]
